@@ -22,7 +22,7 @@ ACTS = [("ack", "ans"), ("ans",), ("ack",), (), ("nack",), ("ack", "late"), ("ac
         ("ack", "close"), ("close",), ("ind",), ("other",)]
 
 
-def run_script(udp, script, reqs, user_close=None, tcp_lost=None, seed=0, disc_delay=0.0):
+def run_script(udp, script, reqs, user_close=None, tcp_lost=None, seed=0, disc_delay=0.0, with_cb=True):
     """script: reactions to the k-th DeviceConfigurationRequest; reqs: list of (start_time, id, kind, pid)"""
     from xknx.cemi import (CEMIFrame, CEMIMessageCode, CEMIMPropInfo, CEMIMPropReadResponse, CEMIMPropWriteResponse)
     from xknx.exceptions import CommunicationError
@@ -44,10 +44,11 @@ def run_script(udp, script, reqs, user_close=None, tcp_lost=None, seed=0, disc_d
                 pi = c.data.property_info
                 ev.append({"ev": "ind_cb", "ot": int(pi.object_type), "inst": pi.object_instance, "pid": int(pi.property_id)})
 
+            # (without a callback an indication is dropped: the harness then writes the "handed to the callback" event itself, see `log`)
             if udp:
-                conn = UDPDeviceManagementConnection(GW[0], GW[1], "10.0.0.1", indication_callback=ind_cb)
+                conn = UDPDeviceManagementConnection(GW[0], GW[1], "10.0.0.1", indication_callback=ind_cb if with_cb else None)
             else:
-                conn = TCPDeviceManagementConnection(GW[0], GW[1], indication_callback=ind_cb)
+                conn = TCPDeviceManagementConnection(GW[0], GW[1], indication_callback=ind_cb if with_cb else None)
 
             def deliver(body, delay=0.0, log=None):
                 def go():
@@ -56,7 +57,10 @@ def run_script(udp, script, reqs, user_close=None, tcp_lost=None, seed=0, disc_d
                         return
                     raw = KNXIPFrame.init_from_body(body() if callable(body) else body).to_knx()
                     if log is not None:
-                        ev.append(log() if callable(log) else log)
+                        e_ = log() if callable(log) else log
+                        ev.append(e_)
+                        if not with_cb and e_.get("ev") == "rx_cemi" and e_.get("type") == "ind" and conn.communication_channel is not None:
+                            ev.append({"ev": "ind_cb", "ot": e_["ot"], "inst": e_["inst"], "pid": e_["pid"]})
                     if udp:
                         tr.deliver(raw, GW)
                     else:
@@ -68,7 +72,7 @@ def run_script(udp, script, reqs, user_close=None, tcp_lost=None, seed=0, disc_d
                     loop.inject(go)
 
             def answer(kind, pid, inst=1, delay=0.0, err=False):
-                st["serial"] = (st["serial"] + 1) % 250
+                st["serial"] = (st["serial"] + 1) % 120
                 val = st["serial"]
                 pi = CEMIMPropInfo(object_type=OT, object_instance=inst, property_id=pid, number_of_elements=0 if err else 1)
                 if kind == "read":
@@ -80,7 +84,8 @@ def run_script(udp, script, reqs, user_close=None, tcp_lost=None, seed=0, disc_d
                                    else CEMIMPropWriteResponse(property_info=pi))
                     val = -1
                 else:
-                    fr = CEMIFrame(code=CEMIMessageCode.M_PROP_INFO_IND, data=CEMIMPropReadResponse(property_info=pi, data=b"\x01"))
+                    fr = CEMIFrame(code=CEMIMessageCode.M_PROP_INFO_IND, data=CEMIMPropReadResponse(property_info=pi, data=b"\x7f"))
+                    val = 127
                 raw = fr.to_knx()
 
                 def log():
@@ -222,11 +227,15 @@ def plans(ck):
                 out.append(dict(udp=udp, script=[a, a], reqs=seq_reqs(2, 0.0), tcp_lost=t))
             if t in (3.0, 9.999):      # the server takes 0.9 s to answer the DisconnectRequest: the close overlaps the waits
                 out.append(dict(udp=udp, script=[a, a], reqs=seq_reqs(2, 0.0), user_close=t - 0.5, disc_delay=0.9))
+        # no indication callback registered: indications (also for the very property being read) are dropped, never taken for an answer
+        for s_ in ((("ack", "ind", "ans"),), (("ind",), ("ack", "ans")), (("ack", "ind"), ("ack", "ind", "ans")), (("ind", "ind"),), (("ack", "ind", "late"),)):
+            out.append(dict(udp=udp, script=[tuple(x) for x in s_] * 2, reqs=seq_reqs(3, 40.0), with_cb=False))
+            out.append(dict(udp=udp, script=[tuple(x) for x in s_] * 2, reqs=[(0.0, 1, "read", 51), (0.0, 2, "read", 51), (0.5, 3, "write", 51)], with_cb=False))
         for _ in range(60 if ck.tier == "quick" else 1500):
             n = rnd.randrange(2, 6)
             out.append(dict(udp=udp, script=[rnd.choice(acts) for _ in range(n + 3)],
                             reqs=[(rnd.choice([0.0, 0.0, 0.3, 11.0, 45.0]), i + 1, rnd.choice(["read", "write"]), 51 + rnd.randrange(3)) for i in range(n)],
-                            user_close=rnd.choice([None, None, None, 0.0, 5.0, 12.0, 50.0])))
+                            user_close=rnd.choice([None, None, None, 0.0, 5.0, 12.0, 50.0]), with_cb=rnd.random() < 0.7))
     return out
 
 
@@ -235,7 +244,7 @@ def run(ck):
     ck.assume("'promptly': a request outstanding when the connection closes fails no later than the acknowledgement wait already running (10 s), immediately otherwise, and nothing more is transmitted")
     tlc.mc(ck, "io/DevMgmt_MC", require_actions=False)
     ps = plans(ck)
-    traces = [run_script(p["udp"], p["script"], p["reqs"], p.get("user_close"), p.get("tcp_lost"), ck.seed, p.get("disc_delay", 0.0)) for p in ps]
+    traces = [run_script(p["udp"], p["script"], p["reqs"], p.get("user_close"), p.get("tcp_lost"), ck.seed, p.get("disc_delay", 0.0), p.get("with_cb", True)) for p in ps]
     res = tlc.batch(ck, "io/DevMgmt_Trace", traces, min_per_shard=60)
     for idx, info in sorted(res.bad.items()):
         t = traces[idx]["ev"]
@@ -280,7 +289,7 @@ def replay(ck, path):
 
     d = json.loads(open(path).read())["replay"]
     p = d["plan"]
-    t = run_script(p["udp"], [tuple(a) for a in p["script"]], [tuple(r) for r in p["reqs"]], p.get("user_close"), p.get("tcp_lost"), ck.seed, p.get("disc_delay", 0.0))
+    t = run_script(p["udp"], [tuple(a) for a in p["script"]], [tuple(r) for r in p["reqs"]], p.get("user_close"), p.get("tcp_lost"), ck.seed, p.get("disc_delay", 0.0), p.get("with_cb", True))
     res = tlc.batch(ck, "io/DevMgmt_Trace", [t])
     l = res.bad.get(0)
     print("rejected at:", l, t["ev"][l - 1] if l else None)
